@@ -3061,6 +3061,33 @@ void Analyser::AnalyserImpl::analyseModel(const ModelPtr &model)
         requalified = false;
 
         for (const auto &internalEquation : mInternalEquations) {
+            if (internalEquation->mType == AnalyserInternalEquation::Type::NLA) {
+                // An NLA equation may compute a variable that was qualified
+                // as a constant because all the other variables in the
+                // equation looked like constants at the time. So, requalify
+                // it if one of them turned out not to be a constant.
+
+                auto hasNonConstantVariable = std::any_of(internalEquation->mAllVariables.begin(), internalEquation->mAllVariables.end(), [&](const auto &v) {
+                    return (std::find(internalEquation->mUnknownVariables.begin(), internalEquation->mUnknownVariables.end(), v) == internalEquation->mUnknownVariables.end())
+                           && (v->mType != AnalyserInternalVariable::Type::CONSTANT)
+                           && (v->mType != AnalyserInternalVariable::Type::COMPUTED_TRUE_CONSTANT)
+                           && (v->mType != AnalyserInternalVariable::Type::COMPUTED_VARIABLE_BASED_CONSTANT);
+                });
+
+                if (hasNonConstantVariable) {
+                    for (const auto &unknownVariable : internalEquation->mUnknownVariables) {
+                        if ((unknownVariable->mType == AnalyserInternalVariable::Type::COMPUTED_TRUE_CONSTANT)
+                            || (unknownVariable->mType == AnalyserInternalVariable::Type::COMPUTED_VARIABLE_BASED_CONSTANT)) {
+                            unknownVariable->mType = AnalyserInternalVariable::Type::ALGEBRAIC;
+
+                            requalified = true;
+                        }
+                    }
+                }
+
+                continue;
+            }
+
             if (internalEquation->mType != AnalyserInternalEquation::Type::VARIABLE_BASED_CONSTANT) {
                 continue;
             }
